@@ -218,6 +218,7 @@ type request struct {
 	Ev  api.Event
 	Pod string
 	Ctr string // "" for pod events
+	Big int    // KiB of annotation carried by the container (pod for pod events)
 }
 
 func (r request) id() string {
@@ -252,6 +253,14 @@ func (e *env) fire(rq request) reqResult {
 	var ctr *api.Container
 	if rq.Ctr != "" {
 		ctr = mkCtr(rq.Pod, rq.Ctr)
+	}
+	if rq.Big > 0 {
+		big := map[string]string{"big": strings.Repeat("x", rq.Big*1024)}
+		if ctr != nil {
+			ctr.Annotations = big
+		} else {
+			pod.Annotations = big
+		}
 	}
 	var res reqResult
 	t0 := time.Now()
